@@ -35,7 +35,7 @@ ITEMS = [
     Item(id='sd_rq', source=S, locator="impl<'a> SoftDeref for &'a Box<BigRational> / fn soft_deref", ensures=[('id', 'r@ == (**self)@')], props=P7),
 
     # constructors
-    Item(id='from_nint', source=S, locator='impl From<NInt> for NNum / fn from', ensures=[('value', 'r@ == NumV::Int(x@)')], props=P7),
+    Item(id='from_nint', source=S, locator='impl From<NInt> for NNum / fn from', ensures=[('value', 'r@ == NumV::Int(x@)'), ('wraps', 'r == NNum::Int(x)')], props=P7),
     Item(id='from_bigint', source=S, locator='impl From<BigInt> for NNum / fn from', ensures=[('value', 'r@ == NumV::Int(x@)')], props=P7),
     Item(id='from_bigrational', source=S, locator='impl From<BigRational> for NNum / fn from', ensures=[('value', 'r@ == NumV::Rat(x@)')], props=P7),
     Item(id='from_f64', source=S, locator='impl From<f64> for NNum / fn from', ensures=[('value', 'r@ == NumV::Flt(x)')], props=P7),
